@@ -333,6 +333,15 @@ func (x *Exec) doExportContinue(op *Op) {
 			return
 		}
 	}
+	// the whole export-and-restart is one step for the armed oracles (nothing but the designed refunds may have
+	// happened to deposits, bindings, contexts, balances)
+	x.steps++
+	er := &StepRec{Idx: x.steps, OpIndex: x.opIndex, Kind: "export", Op: op, Pre: pre, Post: post, Height: post.Height, Time: post.Time}
+	x.logf("%d export h=%d d=%s", er.Idx, er.Height, post.Digest()[:16])
+	x.runOracles(er)
+	if x.stopped {
+		return
+	}
 	x.cur = post
 	x.tr.rebase(post)
 	x.tr.Generation++
